@@ -1,22 +1,22 @@
 SPECIFICATION Spec
-CONSTANTS Contracts <- McContracts
+CONSTANTS Contracts <- McOne
  Sender = "U"
- Creators = {}
+ Creators = {"U", "A"}
  Slots <- McSlots
- InitBal <- McInitBal
- InitStor <- McInitStor
- Kinds <- McKinds
- Vals = {1}
- SendVals = {0, 1}
- SuicideTo = {"U"}
- G0 = 4
+ InitBal <- McInitBal1
+ InitStor <- McInitStor1
+ Kinds <- McKindsC
+ Vals <- McNoSlots
+ SendVals = {0}
+ SuicideTo <- McNoSlots
+ G0 = 6
  MaxDepth = 3
- MaxFan = 2
+ MaxFan = 1
  DepthLimit = 1024
  DevS = FALSE
  DevG = FALSE
- JumpDests = {}
- ShapeAt <- McShapeAt
+ JumpDests = {"next", "far", "s0", "s1", "s2"}
+ ShapeAt <- McShapeAtB
  DevJ = FALSE
  DevC = FALSE
 VIEW ViewNoHist
